@@ -93,6 +93,7 @@ EncV(a, h) ==
     ELSE IF a.mustfail THEN Rej("no-error-on-disconnected-graph")
     ELSE IF ~a.wf THEN NA("graph not well-formed or not expressible: content clauses not judged")
     ELSE FirstFail(<<
+            <<"graph-argument-left-unchanged", T.unchanged>>,
             <<"top", h.top = EncTop>>,
             <<"same-variables", Vars(h) = Sources(G(T.g))>>,
             <<"every-triple-exactly-once", BagOf(Canon(h, M)) = BagOf(Canon([top |-> EncTop, tr |-> T.g.tr], M))>>,
